@@ -106,6 +106,11 @@ def apply_event(s, ev):
             arg = xt.construct(ft, xt.to_py(ft, val), _buffer=place.traced("np", 0))
         do_set(s, via, path, arg)
         s.mv = xt.set_path(s.mv, path, val)
+        # plain data assigned over a reference creates a NEW target sized for the new value: the space "fixed at
+        # creation" of every string below such a reference is the one of the object just created
+        for lp, lt, lv in xt.leaf_paths(ft, val):
+            if lt[0] == "Str" and any(q in ("*", "#") for q in lp):
+                s.rooms[tuple(path) + tuple(lp)] = string_room(lv)
     elif kind == "grow":
         b = s.h._buffer
         cap = b.capacity
@@ -199,9 +204,49 @@ def events(s, opts, depth_now):
                     if via == "n" and len(path) < 2:
                         continue
                     evs.append(("setc", via, path, form, val))
+    if opts.get("compounds", True) and xt.has_refs(t):
+        # whole nested compounds whose references are all null, and rebinding of reference slots themselves
+        for path, ct, cv in xt.compound_paths(t, mv):
+            if path[-1] in ("*", "#") or not xt.has_refs(ct) or not xt.py_expressible(ct, cv):
+                continue
+            nv = null_refs(ct, same_size_alt(ct, cv, n + 1))
+            for via in vias[:2]:
+                evs.append(("setc", via, path, "py", nv))
+        for path, rt, rv in ref_slots(t, mv):
+            if not path:
+                continue
+            for via in vias[:2]:
+                evs.append(("setc", via, path, "py", None))
+                tt = rt[1] if rt[0] == "R" else rt[1][0]
+                fresh = xt.gen(tt, "alt", xt.Ctr(200 + n))
+                evs.append(("setc", via, path, "py", fresh if rt[0] == "R" else (0, fresh)))
     if opts.get("grow", True) and s.pl.buf is not None:
         evs.append(("grow",))
     return evs
+
+
+def null_refs(t, v):
+    k = t[0]
+    if k in ("R", "U"):
+        return None
+    if k == "St":
+        return {n: null_refs(ft, v[n]) for n, ft in t[1]}
+    if k == "A":
+        return {"shape": v["shape"], "items": {i: null_refs(t[1], x) for i, x in v["items"].items()}}
+    return v
+
+
+def ref_slots(t, v, path=()):
+    """(path, type, value) of every reference / union-reference slot reachable without crossing a reference"""
+    k = t[0]
+    if k in ("R", "U"):
+        yield path, t, v
+    elif k == "St":
+        for n, ft in t[1]:
+            yield from ref_slots(ft, v[n], path + (n,))
+    elif k == "A":
+        for idx, iv in v["items"].items():
+            yield from ref_slots(t[1], iv, path + (idx,))
 
 
 def canon(s):
